@@ -2008,5 +2008,8 @@ class MergedResult(IteratorResult[Unpack[_Ts]]):
     def _soft_close(self, hard: bool = False, **kw: Any) -> None:
         for r in self._results:
             r._soft_close(hard=hard, **kw)
+        # also close this result's own chained iterator, so that rows of the
+        # members are not delivered after first() / one() / close()
+        super()._soft_close(hard=hard, **kw)
         if hard:
             self.closed = True
